@@ -13,6 +13,7 @@ ids="$@"; [ -z "$ids" ] && ids=$(ls /verif/seeded | grep -v "^_")
 ok=0; bad=0
 for id in $ids; do
   prop=$(python3 -c "import json;d=json.load(open('/verif/seeded/$id/meta.json'));print(d.get('regress_with', d['property']))")
+  if grep -q regress_expect /verif/seeded/$id/meta.json; then echo "$id: skipped (recorded as not caught by decision)"; continue; fi
   git -C $W/repo checkout -q -- . ; git -C $W/repo apply /verif/seeded/$id/patch.diff || { echo "$id: PATCH DOES NOT APPLY"; bad=$((bad+1)); continue; }
   timeout 1500 /verif/check $prop --tier quick > $W/out-$id.txt 2>&1; rc=$?
   if [ $rc = 1 ] && grep -q "^VIOLATION property=$prop" $W/out-$id.txt; then ok=$((ok+1)); echo "$id: caught by $prop ($(grep -m1 '^#   class=' $W/out-$id.txt | cut -c5-70))"; else bad=$((bad+1)); echo "$id: NOT CAUGHT by $prop (exit $rc)"; fi
